@@ -1,3 +1,292 @@
-From Coq Require Import List.
-From PV Require Import Comp.Constants.
-Lemma placeholder_ConstantsSim : True. Proof. exact I. Qed.
+(* Proofs/ConstantsSim.v — C12: (1) the site value of ConstantsSpec.load_value is what the AVM [step]
+   pushes (single-step simulation on AVM/Machine.v); (2) the refuted statements: block indices are not
+   bounded by 255, an address template changes its literal context; (3) indices are encodable when
+   there are at most 256 distinct constants; (4) non-vacuity examples. *)
+From Coq Require Import List Arith NArith Ascii String Bool Lia.
+From PV Require Import Base.Bytes Base.U64 Base.Sexp AVM.Syntax AVM.Ops AVM.Machine AVM.Parse
+  Comp.Assemble Comp.ConstantsLit Comp.Constants Comp.ConstantsSpec Proofs.ConstantsLitProof Proofs.ConstantsProof.
+Import ListNotations.
+Local Open Scope string_scope.
+
+Lemma nth_N_nth_error {A} (l : list A) (i : N) : nth_N l i = nth_error l (N.to_nat i).
+Proof.
+  unfold nth_N. destruct (N.ltb_spec i (N.of_nat (List.length l))) as [H|H]; [reflexivity|].
+  symmetry. apply nth_error_None. lia.
+Qed.
+
+Theorem load_value_step ib bb p v :
+  load_value ib bb p = Some v -> imm_fits p ->
+  forall cx prog m,
+    nth_error (pr_code prog) (m_pc m) = Some p ->
+    m_intc m = ib -> m_bytec m = bb -> (height m <= STACK_MAX)%nat ->
+    step cx prog m = Running (with_pc_stack m (S (m_pc m)) (sval_value v :: m_stack m)).
+Proof.
+  intros Hl Hf cx prog m Hn Hi Hb Hh.
+  unfold step. rewrite Hn.
+  destruct (Nat.ltb_spec STACK_MAX (height m)) as [Hgt|_]; [lia|].
+  destruct p as [o imms]. unfold load_value in Hl. cbn [p_op p_imms] in *.
+  destruct o; try discriminate Hl; unfold push_value in Hl; cbn [p_op p_imms] in Hl.
+  all: try (destruct imms as [|[n|b|s] [|? ?]]; try discriminate Hl).
+  all: try (injection Hl as <-).
+  all: unfold exec_op; cbn [exec_pure imms_to_args].
+  all: subst ib bb.
+  all: try rewrite nth_N_nth_error.
+  all: try (destruct (nth_error _ _) as [x|] eqn:Hx; [|discriminate Hl]; cbn in Hl; injection Hl as <-).
+  all: try reflexivity.
+  all: try (unfold imm_fits in Hf; cbn [p_op p_imms] in Hf; unfold oki, fits64;
+            destruct (N.ltb_spec n U64) as [_|Hge]; [reflexivity|unfold U64 in Hge; lia]).
+Qed.
+
+(* the original pseudo-op, as the assembler reads it, pushes the value it denotes *)
+Lemma denote_parsed sigma msel i v :
+  is_const_instr i = true -> denote sigma msel i = Some v ->
+  exists p0, parsed_of sigma msel i = Some p0 /\ imm_fits p0 /\ forall ib bb, load_value ib bb p0 = Some v.
+Proof.
+  unfold denote, is_const_instr. intros Hc Hd.
+  destruct (parsed_of sigma msel i) as [p0|] eqn:Hp; [|discriminate Hd].
+  exists p0. split; [reflexivity|].
+  unfold parsed_of in Hp. destruct (arg_tokens sigma (i_args i)) as [ts|]; [|discriminate Hp].
+  destruct i as [o args]. cbn [i_op] in *.
+  destruct o; try discriminate Hc; cbn -[parse_int_arg parse_bytes_arg decode_base32 parse_string_literal alookup firstn Nat.eqb String.length] in Hp.
+  - (* int *)
+    destruct ts as [|a [|b r]]; try discriminate Hp.
+    destruct (parse_int_arg a) as [n|] eqn:Hn; [|discriminate Hp]. injection Hp as <-.
+    cbn in Hd. injection Hd as <-. split; [exact (parse_int_arg_lt _ _ Hn)|reflexivity].
+  - (* byte *)
+    destruct (parse_bytes_arg ts) as [[b [|x y]]|]; try discriminate Hp. injection Hp as <-.
+    cbn in Hd. injection Hd as <-. split; [exact I|reflexivity].
+  - (* addr *)
+    destruct ts as [|a [|b r]]; try discriminate Hp.
+    destruct (String.length a =? 58)%nat; [|discriminate Hp].
+    destruct (decode_base32 a) as [d|]; [|discriminate Hp]. injection Hp as <-.
+    unfold push_value in Hd. cbn [p_op p_imms] in Hd. injection Hd as <-. split; [exact I|reflexivity].
+  - (* method *)
+    destruct ts as [|a [|b r]]; try discriminate Hp.
+    destruct (parse_string_literal a) as [sg|]; [|discriminate Hp].
+    destruct (alookup String.eqb (string_of_bytes sg) msel) as [sel|]; [|discriminate Hp]. injection Hp as <-.
+    cbn in Hd. injection Hd as <-. split; [exact I|reflexivity].
+Qed.
+
+(* Site-wise single-step simulation: at a constant site, the original instruction (in any program,
+   any machine state) and the rewritten instruction (in any program, any state whose constant blocks
+   are the ones the emitted block lines establish) both step to "same state, pc+1, value pushed". *)
+Definition site_sim (sigma : string -> string) (msel : list (string * bytes))
+           (ib : list N) (bb : list bytes) (c c' : comp) : Prop :=
+  match c with
+  | COp i =>
+      if is_const_instr i then
+        exists i' p0 p' v, c' = COp i' /\ parsed_of sigma msel i = Some p0 /\ parsed_of sigma msel i' = Some p' /\
+          denote sigma msel i = Some v /\
+          forall cx prog0 prog1 m0 m1,
+            nth_error (pr_code prog0) (m_pc m0) = Some p0 ->
+            nth_error (pr_code prog1) (m_pc m1) = Some p' ->
+            m_intc m1 = ib -> m_bytec m1 = bb ->
+            (height m0 <= STACK_MAX)%nat -> (height m1 <= STACK_MAX)%nat ->
+            step cx prog0 m0 = Running (with_pc_stack m0 (S (m_pc m0)) (sval_value v :: m_stack m0)) /\
+            step cx prog1 m1 = Running (with_pc_stack m1 (S (m_pc m1)) (sval_value v :: m_stack m1))
+      else c' = c
+  | _ => c' = c
+  end.
+
+Theorem constants_step_simulation addr_hash sig_hash sigma msel ops out :
+  msel_consistent sig_hash msel ->
+  create_constant_blocks addr_hash sig_hash ops = Some out ->
+  input_ok sigma msel ops ->
+  exists pro body ib bb,
+    out = (pro ++ body)%list /\
+    blocks_after sigma msel pro [] [] = Some (ib, bb) /\
+    Forall2 (site_sim sigma msel ib bb) ops body.
+Proof.
+  intros Hm Hc Hok.
+  destruct (constants_sites_preserved addr_hash sig_hash sigma msel Hm ops out Hc Hok)
+    as (pro & body & ib & bb & -> & _ & Hb & Hf).
+  exists pro, body, ib, bb. split; [reflexivity|]. split; [exact Hb|].
+  unfold input_ok in Hok. clear Hc Hb.
+  induction Hf as [|c c' ops' body' Hs _ IH]; [constructor|].
+  inversion Hok as [|? ? (Hw & _ & _) Hok']; subst. constructor; [|exact (IH Hok')].
+  destruct c as [i|l cm|pv]; cbn [site_ok site_sim] in *; try exact Hs.
+  destruct (is_const_instr i) eqn:Hci; [|exact Hs].
+  destruct Hs as (i' & p' & -> & Hp' & Hfit & Hl).
+  cbn in Hw. specialize (Hw Hci). destruct (denote sigma msel i) as [v|] eqn:Hd; [|congruence].
+  destruct (denote_parsed sigma msel i v Hci Hd) as (p0 & Hp0 & Hfit0 & Hl0).
+  exists i', p0, p', v. split; [reflexivity|]. split; [exact Hp0|]. split; [exact Hp'|]. split; [reflexivity|].
+  intros cx prog0 prog1 m0 m1 N0 N1 I1 B1 H0 H1. split.
+  - exact (load_value_step (m_intc m0) (m_bytec m0) p0 v (Hl0 _ _) Hfit0 cx prog0 m0 N0 eq_refl eq_refl H0).
+  - exact (load_value_step ib bb p' v (Hl v eq_refl) Hfit cx prog1 m1 N1 I1 B1 H1).
+Qed.
+
+(* ---------------------------------------------------------------- block indices *)
+(* positive part: at a well-formed site a long-form index is below the size of the emitted block *)
+Theorem constant_index_below_block_size addr_hash sig_hash sigma msel ops out :
+  msel_consistent sig_hash msel ->
+  create_constant_blocks addr_hash sig_hash ops = Some out ->
+  input_ok sigma msel ops ->
+  exists pro body ib bb,
+    out = (pro ++ body)%list /\ blocks_after sigma msel pro [] [] = Some (ib, bb) /\
+    Forall2 (fun c c' =>
+      match c with
+      | COp i => is_const_instr i = true ->
+          forall i' p' k, c' = COp i' -> parsed_of sigma msel i' = Some p' -> p_imms p' = [IInt k] ->
+            (p_op p' = O_intc -> (N.to_nat k < List.length ib)%nat) /\
+            (p_op p' = O_bytec -> (N.to_nat k < List.length bb)%nat)
+      | _ => True
+      end) ops body.
+Proof.
+  intros Hm Hc Hok.
+  destruct (constants_sites_preserved addr_hash sig_hash sigma msel Hm ops out Hc Hok)
+    as (pro & body & ib & bb & -> & _ & Hb & Hf).
+  exists pro, body, ib, bb. split; [reflexivity|]. split; [exact Hb|].
+  unfold input_ok in Hok. clear Hc Hb.
+  induction Hf as [|c c' ops' body' Hs _ IH]; [constructor|].
+  inversion Hok as [|? ? (Hw & _ & _) Hok']; subst. constructor; [|exact (IH Hok')].
+  destruct c as [i|l cm|pv]; [|exact I..].
+  intros Hci i' p' k -> Hp' Himm. cbn [site_ok] in Hs. rewrite Hci in Hs.
+  destruct Hs as (i2 & p2 & E & Hp2 & _ & Hl). injection E as <-. rewrite Hp' in Hp2. injection Hp2 as <-.
+  cbn in Hw. specialize (Hw Hci). destruct (denote sigma msel i) as [v|] eqn:Hd; [|congruence].
+  specialize (Hl v eq_refl). unfold load_value in Hl. rewrite Himm in Hl.
+  split; intros Ho; rewrite Ho in Hl; apply nth_error_Some;
+    destruct (nth_error _ (N.to_nat k)); [discriminate|discriminate Hl|discriminate|discriminate Hl].
+Qed.
+
+(* negative part: nothing bounds the block size.  Witness family: n distinct integers >= 128, each twice. *)
+Definition int_op (n : N) : comp := COp (mkI O_int [AInt n]).
+Definition byte_op (n : N) : comp := COp (mkI O_byte [AStr (hex_spelling (be_encode 2 n))]).
+Definition witness_ints (n : nat) : list comp :=
+  let l := map (fun j => int_op (1000 + N.of_nat j)) (seq 0 n) in (l ++ l)%list.
+Definition witness_bytes (n : nat) : list comp :=
+  let l := map (fun j => byte_op (N.of_nat j)) (seq 0 n) in (l ++ l)%list.
+
+Definition no_hash : bytes -> bytes := fun _ => [].
+Definition no_sig : string -> bytes := fun _ => [].
+Definition id_sigma : string -> string := fun s => s.
+
+Definition max_long_index (out : list comp) : N :=
+  fold_left (fun acc c => match c with COp i => match long_index i with Some k => N.max acc k | None => acc end | _ => acc end) out 0%N.
+
+Lemma int_op_ok sigma msel n : (n < 18446744073709551616)%N ->
+  well_formed_site sigma msel (int_op n) /\ no_addr_template_site (int_op n) /\ plain_method_site (int_op n).
+Proof.
+  intros Hn. split; [|split; exact I]. intros _.
+  unfold denote, parsed_of. cbn -[parse_int_arg N_to_dec]. rewrite parse_int_arg_to_dec by exact Hn. discriminate.
+Qed.
+
+Lemma witness_ints_ok sigma msel n : (n <= 5000)%nat -> input_ok sigma msel (witness_ints n).
+Proof.
+  intros Hn. unfold input_ok, witness_ints. apply Forall_app. split; apply Forall_forall; intros c Hc;
+    apply in_map_iff in Hc; destruct Hc as (j & <- & Hj); apply in_seq in Hj; apply int_op_ok; lia.
+Qed.
+
+Definition big_index_site (c : comp) : bool :=
+  match c with
+  | COp i => match i_op i, long_index i with
+             | O_intc, Some k => (255 <? k)%N
+             | _, _ => false
+             end
+  | _ => false
+  end.
+
+Theorem constant_index_encodable_refuted :
+  exists ops out,
+    create_constant_blocks no_hash no_sig ops = Some out /\
+    input_ok id_sigma [] ops /\
+    exists i k, In (COp i) out /\ i_op i = O_intc /\ long_index i = Some k /\ (255 < k)%N.
+Proof.
+  exists (witness_ints 257).
+  destruct (create_constant_blocks no_hash no_sig (witness_ints 257)) as [out|] eqn:E;
+    [|vm_compute in E; discriminate E].
+  exists out. split; [reflexivity|]. split; [apply witness_ints_ok; lia|].
+  assert (Hex : existsb big_index_site out = true).
+  { assert (Hc : option_map (existsb big_index_site) (create_constant_blocks no_hash no_sig (witness_ints 257)) = Some true)
+      by (vm_compute; reflexivity).
+    rewrite E in Hc. now injection Hc. }
+  apply existsb_exists in Hex. destruct Hex as (c & Hin & Hc).
+  destruct c as [i|l cm|pv]; try discriminate Hc. cbn [big_index_site] in Hc.
+  destruct (i_op i) eqn:Ho; try discriminate Hc.
+  destruct (long_index i) as [k|] eqn:Hk; [|discriminate Hc].
+  exists i, k. repeat split; try assumption. now apply N.ltb_lt.
+Qed.
+
+(* the same for larger members of the family and for byte constants (closed computations) *)
+Lemma witness_family_indices :
+  option_map max_long_index (create_constant_blocks no_hash no_sig (witness_ints 257)) = Some 256%N /\
+  option_map max_long_index (create_constant_blocks no_hash no_sig (witness_ints 300)) = Some 299%N /\
+  option_map max_long_index (create_constant_blocks no_hash no_sig (witness_bytes 300)) = Some 299%N /\
+  option_map max_long_index (create_constant_blocks no_hash no_sig (witness_ints 256)) = Some 255%N.
+Proof. repeat split; vm_compute; reflexivity. Qed.
+
+(* ---------------------------------------------------------------- address templates *)
+Definition zero_address : string := "AAAAAAAAAAAAAAAAAAAAAAAAAAAAAAAAAAAAAAAAAAAAAAAAAAAAY5HFKQ".
+Definition tmpl_addr_ops : list comp := [COp (mkI O_addr [AStr "TMPL_A"])].
+
+(* With the placeholder instantiated by an address (what Tmpl.zero / a user supplies), the pseudo-op
+   form denotes the public key, while the rewritten site is not even readable by the assembler. *)
+Theorem addr_template_context_refuted :
+  exists sigma ops out i i' v,
+    create_constant_blocks no_hash no_sig ops = Some out /\
+    ops = [COp i] /\ out = [COp i'] /\
+    denote sigma [] i = Some v /\
+    parsed_of sigma [] i' = None.
+Proof.
+  exists (fun _ => zero_address), tmpl_addr_ops.
+  eexists _, _, _, _. split; [vm_compute; reflexivity|].
+  split; [reflexivity|]. split; [reflexivity|]. split; vm_compute; reflexivity.
+Qed.
+
+(* ---------------------------------------------------------------- templates and enums *)
+Theorem template_spelling_kept s :
+  is_tmpl_name s = true ->
+  extract_int [AStr s] = Some (KTmpl s) /\ int_key_arg (KTmpl s) = AStr s /\
+  extract_bytes [AStr s] = Some (KTmpl s) /\ bytes_key_arg (KTmpl s) = AStr s.
+Proof.
+  intros H. unfold extract_int, extract_bytes. rewrite H. repeat split.
+Qed.
+
+Theorem enum_value_kept name n :
+  is_tmpl_name name = false ->
+  extract_int [AStr name] = Some (KInt n) ->
+  parse_int_arg name = Some n /\ parse_int_arg (N_to_dec n) = Some n.
+Proof.
+  intros Ht H. unfold extract_int in H. rewrite Ht in H.
+  destruct (assoc_str name int_enum_values) as [m|] eqn:E; [|discriminate H]. injection H as <-.
+  now apply int_enum_agrees.
+Qed.
+
+(* ---------------------------------------------------------------- non-vacuity *)
+Definition example_ops : list comp :=
+  [COp (mkI O_int [AInt 5]); COp (mkI O_byte [AStr """a\x62"""]); COp (mkI O_int [AStr "pay"]);
+   CLabel "l0" None; COp (mkI O_int [AInt 5]); COp (mkI O_byte [AStr "0x6162"]);
+   COp (mkI O_byte [AStr "base64(YWI=)"]); COp (mkI O_int [AStr "TMPL_N"]); COp (mkI O_pop []);
+   COp (mkI O_byte [AStr "base32(MFRA)"]); COp (mkI O_int [AInt 1])].
+
+Example example_output :
+  option_map (fun out => assemble_all out) (create_constant_blocks no_hash no_sig example_ops) =
+  Some (Some ["intcblock 5 1"; "bytecblock 0x6162"; "intc_0 // 5"; "bytec_0 // ""a\x62"""; "intc_1 // pay"; "l0:";
+              "intc_0 // 5"; "bytec_0 // 0x6162"; "bytec_0 // base64(YWI=)"; "pushint TMPL_N // TMPL_N"; "pop";
+              "bytec_0 // base32(MFRA)"; "intc_1 // 1"]).
+Proof. vm_compute. reflexivity. Qed.
+
+Example example_input_ok : input_ok (fun _ => "77") [] example_ops.
+Proof.
+  unfold input_ok, example_ops.
+  repeat (constructor; [split; [cbn [well_formed_site]; try exact I; intros Hc; try discriminate Hc; vm_compute; discriminate|split; cbn; auto]|]).
+  constructor.
+Qed.
+
+Example example_msel_consistent : msel_consistent no_sig [].
+Proof. intros sg sel H. discriminate H. Qed.
+
+(* the spelling Bytes(bytes) / Bytes("base16", ..) emits in lowercase — and createConstantBlocks itself
+   emits — is read by BOTH constants.py and the assembler, as the same value *)
+Theorem hex_spelling_read_by_both b rest :
+  extract_bytes [AStr (hex_spelling b)] = Some (KBytes b) /\
+  parse_bytes_arg (hex_spelling b :: rest) = Some (b, rest).
+Proof.
+  split; [|apply parse_bytes_arg_hex_spelling].
+  assert (E1 : is_tmpl_name (hex_spelling b) = false) by reflexivity.
+  assert (E2 : String.prefix """" (hex_spelling b) = false) by reflexivity.
+  assert (E3 : String.prefix "0x" (hex_spelling b) = true) by apply prefix_app.
+  unfold extract_bytes. rewrite E1, E2, E3. cbn [andb].
+  unfold hex_spelling, bytes_to_hex. cbn [append list_ascii_of_string skipn].
+  rewrite list_ascii_of_string_of_list_ascii.
+  rewrite (fromhex_agrees _ _ (hex_of_bytes_roundtrip b)). reflexivity.
+Qed.
